@@ -694,6 +694,13 @@ def _meas_case(rng):
     ops_pool = [_narrow_operator(rng, w), _random_operator(rng, min(w, 12), ztype=True) or [_term(1, [[0, "Z"]])],
                 [_term(Fraction(rng.randrange(1, 9), 2), [[q, "Z"] for q in sorted(rng.sample(range(w), rng.randrange(1, min(w, 4) + 1)))])]]
 
+    if w >= 9:
+        # MANY supports on a wide register: qubit sets whose members mix indices below and above 8 / 16 / 64 (the iteration order
+        # of a Python set of ints is not ascending there) – each support and each symmetric difference of two is evaluated
+        ww = min(w, 24) if rng.random() < 0.7 else w
+        ops_pool.append([_term(Fraction(rng.randrange(1, 9), 2) * rng.choice([1, -1]),
+                               [[q, "Z"] for q in rng.sample(range(ww), rng.randrange(2, 5))]) for _ in range(rng.choice([12, 30]))])
+
     def query():
         r = rng.random()
         if r < 0.35:
@@ -940,6 +947,17 @@ def generate(rng, tier):
         if rng.random() < 0.4:
             c["twice"] = True
         cases.append(c)
+    # WIDE registers through the direct exact-expectation route (oracle only): product states on 17-20 qubits, operator terms on
+    # the first, the last and scattered qubits (a bit trick covering 16 bits / an index table of 2^16 entries shows beyond them)
+    for _ in range(6 if big else 2):
+        n = rng.choice([17, 18, 20] if big else [17, 18])
+        state = "".join(rng.choice("01ab") for _ in range(n))
+        terms = []
+        for _t in range(rng.randrange(2, 5)):
+            qs = sorted(set([rng.choice([0, 1, n - 17, n - 1])] + rng.sample(range(n), rng.randrange(0, 3))))
+            ztype = rng.random() < 0.8
+            terms.append({"ops": [[q, "Z" if ztype or rng.random() < 0.5 else "X"] for q in qs], "c": [rat(Fraction(rng.randrange(-8, 9) or 3, 4)), 0]})
+        cases.append({"kind": "wide_exact", "state": state, "operator": terms})
     return cases
 
 
@@ -1119,6 +1137,8 @@ def _reversal_invariant(probs, n):
 def nontrivial(c):
     import numpy as np
     k = c["kind"]
+    if k == "wide_exact":
+        return True
     if k == "views":
         n = _width(c)
         if n < 2:
@@ -1508,6 +1528,25 @@ def _marked_as(marked, how):
     return list(marked)
 
 
+_QSTATE = {"0": (1.0, 0.0), "1": (0.0, 1.0), "a": (0.6, 0.8), "b": (0.8, -0.6)}   # real one-qubit states (Pythagorean)
+
+
+def _run_wide_exact(m, c):
+    """exact expectation of a product state on a WIDE register (17-20 qubits, 2^n amplitudes built here with numpy, qubit 0 the
+    most significant bit) through get_expectation_value; twice on the same operator object"""
+    np = m["np"]
+    vec = np.array([1.0])
+    for ch in c["state"]:
+        vec = np.kron(vec, np.array(_QSTATE[ch]))
+    wf = m["Wavefunction"](vec.astype(complex))
+    op = _build_operator(m, c["operator"], None)
+    out = {}
+    for name in ("exact", "exact2"):
+        r = _stage(lambda: m["get_ev"](op, wf))
+        out[name] = r if _is_err(r) else float(complex(r).real)
+    return out
+
+
 def run_impl(c):
     m = _mods()
     np = m["np"]
@@ -1538,6 +1577,8 @@ def run_impl(c):
         return _run_meas(m, c)
     if k == "session":
         return _run_session(m, c)
+    if k == "wide_exact":
+        return _run_wide_exact(m, c)
     return _run_views(m, c, {})
 
 
@@ -1623,6 +1664,8 @@ def requests(c, out):
         return [("dist", {"probs": c["probs"]})]
     if k == "meas":
         return [("meas", {"shots": [list(t) for t in st], "operator": o.get("operator", [])}) for o, st in _meas_trace(c)[0]]
+    if k == "wide_exact":
+        return []   # (oracle only: the exact model is not asked for 2^17 amplitudes)
     if k == "session":
         outs = out.get("steps", []) if isinstance(out, dict) else []
         rs = []
@@ -1884,6 +1927,24 @@ def oracle(c, out):
     k = c["kind"]
     if isinstance(out, dict) and "exc" in out:
         return ("impl-raise", f"implementation raised {out['exc']}: {out.get('msg')}")
+    if k == "wide_exact":
+        # product state: <P> factorises; <Z> = c^2 - s^2, <X> = 2 c s, <Y> = 0 for the real one-qubit states used
+        ez = {ch: Fraction(str(a)) ** 2 - Fraction(str(b)) ** 2 for ch, (a, b) in _QSTATE.items()}
+        ex = {ch: 2 * Fraction(str(a)) * Fraction(str(b)) for ch, (a, b) in _QSTATE.items()}
+        want = Fraction(0)
+        for t in c["operator"]:
+            v = unrat(t["c"][0])
+            for q, p_ in t["ops"]:
+                v *= ez[c["state"][q]] if p_ == "Z" else (ex[c["state"][q]] if p_ == "X" else 0)
+            want += v
+        scale = 1 + sum(abs(unrat(t["c"][0])) for t in c["operator"])
+        for name in ("exact", "exact2"):
+            if _is_err(out[name]):
+                return (_sig(len(c["state"]), "exact-raise"), f"get_expectation_value raised on a {len(c['state'])}-qubit product state: {out[name]}")
+            if abs(out[name] - float(want)) > 1e-11 * scale:
+                return (_sig(len(c["state"]), "exact-expectation"), f"exact expectation ({name}) {out[name]!r} of a {len(c['state'])}-qubit product state "
+                        f"{c['state']} but the product of the one-qubit expectations is {float(want)!r}")
+        return None
     if k == "freq":
         w = len(c["freqs"][0][0])
         if any(q >= w for q in c["marked"]):
